@@ -379,7 +379,7 @@ def starved(scen, rec, f, props):
                         out.append(("C06", "needs-task-progress",
                                     f"shutdown(kill_workers=True) has not returned although every actor except the task bodies is "
                                     f"quiescent: U{ui} blocked in {rec['blocked'].get(f'U{ui}')}, M in {rec['blocked'].get('M')}"))
-    if "C08" in (props or []) and scen.get("family") == "saturate" and not f["crashes"]:
+    if "C08" in (props or []) and scen.get("family") in ("saturate", "saturatetmo") and not f["crashes"]:
         nsub = sum(1 for a in rec["api"] if a[2] == "submit" and a[3] == "ok") - scen.get("long_from", 0)
         want = min(scen["max_workers"], nsub)
         users_done = all(d for n, d in rec["actors_done"].items() if n.startswith("U"))
